@@ -8,7 +8,7 @@
 #
 import re
 
-from ural.patterns import QUERY_VALUE_IN_URL_TEMPLATE, CONTROL_CHARS_RE
+from ural.patterns import QUERY_VALUE_IN_URL_TEMPLATE, CONTROL_CHARS_RE, PROTOCOL_RE
 from ural.utils import unquote, unquote_unreserved, urljoin
 
 OBVIOUS_REDIRECTS_RE = re.compile(
@@ -77,11 +77,19 @@ def infer_redirection(url, recursive=True):
 
             # Basic relative url
             elif potential_target.startswith("/"):
+                # NOTE: without a protocol the whole url would be read as a
+                # path, and its host lost
+                has_protocol = PROTOCOL_RE.match(url)
+                base = url if has_protocol else "http://" + url
+
                 # NOTE: a url that cannot be parsed has nothing to be joined to
                 try:
-                    target = urljoin(url, potential_target)
+                    target = urljoin(base, potential_target)
                 except ValueError:
                     return original_url
+
+                if not has_protocol:
+                    target = target[len("http://") :]
 
             # Idiotic youtube redirections
             elif "youtube.com/redirect?" in url:
